@@ -89,7 +89,7 @@ func faultKindsFor(ev simrt.Ev, writeHandles map[string]bool) (kinds []simrt.Fau
 		}
 		return []simrt.Fault{f("errno:ENOSPC", 0), f("errno:ENOSPC", ev.N/2), f("errno:EIO", 0), f("short", ev.N/3), f("lost", 0)}, "output", true
 	case "http":
-		return []simrt.Fault{f("neterr", 0)}, "input", false
+		return []simrt.Fault{f("neterr", 0), f("status:404", 0), f("status:500", 0), f("status:404s", 0), f("status:503s", 0)}, "input", false
 	case "httpread":
 		if ev.Err == "EOF" && strings.HasSuffix(strings.SplitN(ev.Path, "?", 2)[0], ".json") {
 			return []simrt.Fault{f("neterr", 0), f("stall", 0)}, "input", false // a JSON body delimits itself too
@@ -1674,6 +1674,11 @@ var oddityTexts = []struct{ name, json string }{
 	{"ref-file-true-root", "{\"$ref\": \"oddtrue.json\"}"},
 	{"ref-file-id-only", "{\"$ref\": \"oddidonly.yaml\"}"},
 	{"ref-file-yaml-alias-bomb", "{\"$ref\": \"oddbomb.yaml\"}"},
+	{"default-object-empty-key", "{\"type\": \"object\", \"properties\": {\"b\": {\"type\": \"string\"}}, \"default\": {\"\": 1}}"},
+	{"default-object-odd-keys", "{\"type\": \"object\", \"properties\": {\"b\": {\"type\": \"string\"}}, \"default\": {\"b\": \"x\", \"1st\": 2, \"a-b\": null, \"\u00fc\": true}}"},
+	{"default-object-unknown-key", "{\"type\": \"object\", \"properties\": {\"b\": {\"type\": \"string\"}}, \"default\": {\"ghost\": {\"deep\": [1, {}]}}}"},
+	{"default-nested-empty-key", "{\"type\": \"object\", \"properties\": {\"b\": {\"type\": \"object\", \"properties\": {\"c\": {\"type\": \"integer\"}}}}, \"default\": {\"b\": {\"\": 0}}}"},
+	{"default-array-of-objects-empty-key", "{\"type\": \"array\", \"items\": {\"type\": \"object\", \"properties\": {\"c\": {\"type\": \"integer\"}}}, \"default\": [{\"\": 0}]}"},
 	{"ref-unsupported-scheme", "{\"$ref\": \"ftp://example.com/x.json\"}"},
 }
 
